@@ -234,6 +234,20 @@ theorem dataAt_append (e : Entry) (P Q : NPath) :
   simp only [dataAt, walk_append]
   cases walk e P <;> simp
 
+/-- The complete recorded data (errors included) at a name path. -/
+def fullAt (e : Entry) (P : NPath) : Option EData := (walk e P).map fun x => x.d
+
+theorem fullAt_nil (e : Entry) : fullAt e [] = some e.d := rfl
+
+theorem fullAt_cons (e : Entry) (k : String) (P : NPath) :
+    fullAt e (k :: P) = (kid e k).bind fun c => fullAt c P := by
+  simp only [fullAt, walk]
+  cases kid e k <;> simp
+
+theorem dataAt_eq_fullAt (e : Entry) (P : NPath) : dataAt e P = (fullAt e P).map nodeData := by
+  simp only [dataAt, fullAt]
+  cases walk e P <;> rfl
+
 /-! ### `updateAt` along a tracked path -/
 
 /-- `g` keeps names. -/
@@ -346,9 +360,9 @@ theorem walk_update_below {e x : Entry} {np : NPath} {q : Path} (h : Tracks e np
     (hg : NamePres g) (r : NPath) : walk (e.updateAt q g) (np ++ r) = walk (g x) r := by
   rw [walk_append, (h.update hg).walk]; rfl
 
-/-- W2: off the updated node's subtree every location keeps its data. -/
-theorem dataAt_update_off {e x : Entry} {np : NPath} {q : Path} (h : Tracks e np q x) {g : Entry → Entry}
-    (hg : NamePres g) (hd : SameData (g x) x) : ∀ P : NPath, ¬ np <+: P → dataAt (e.updateAt q g) P = dataAt e P := by
+/-- W2: off the updated node's subtree every location keeps its data, errors included. -/
+theorem fullAt_update_off {e x : Entry} {np : NPath} {q : Path} (h : Tracks e np q x) {g : Entry → Entry}
+    (hg : NamePres g) : ∀ P : NPath, ¬ np <+: P → fullAt (e.updateAt q g) P = fullAt e P := by
   induction h with
   | nil e => intro P hP; exact absurd (List.nil_prefix) hP
   | @child e c x k ns q hr hc _ ih =>
@@ -359,7 +373,7 @@ theorem dataAt_update_off {e x : Entry} {np : NPath} {q : Path} (h : Tracks e np
       cases P with
       | nil => rfl
       | cons k' P' =>
-        rw [dataAt_cons, dataAt_cons, kid_nonrpc (by simpa using hr), kid_nonrpc hr]
+        rw [fullAt_cons, fullAt_cons, kid_nonrpc (by simpa using hr), kid_nonrpc hr]
         have hG : ∀ y : Entry, ((fun y : Entry => if y.name == k then y.updateAt q g else y) y).name = y.name := by
           intro y; by_cases hy : (y.name == k) = true <;> simp [hy, updateAt_name _ _ _ hg]
         have hm := find?_map_name hG c' k'
@@ -374,7 +388,7 @@ theorem dataAt_update_off {e x : Entry} {np : NPath} {q : Path} (h : Tracks e np
           · subst hk
             rw [hf] at hc; cases hc
             simp only [hyn, beq_self_eq_true, if_true]
-            apply ih hd
+            apply ih
             intro hpre; exact hP (List.cons_prefix_cons.mpr ⟨rfl, hpre⟩)
           · have : (y.name == k) = false := by simp [hyn, hk]
             simp [this]
@@ -386,13 +400,13 @@ theorem dataAt_update_off {e x : Entry} {np : NPath} {q : Path} (h : Tracks e np
       cases P with
       | nil => rfl
       | cons k' P' =>
-        rw [dataAt_cons, dataAt_cons]
+        rw [fullAt_cons, fullAt_cons]
         simp only [mk_inp, mk_d] at hc hr
         by_cases hk : k' = "input"
         · subst hk
           rw [kid_input (by simpa using hr), kid_input (by simpa using hr)]
           simp only [mk_inp, List.head?_map, hc, Option.map_some, Option.getD_some, Option.bind_some]
-          apply ih hd
+          apply ih
           intro hpre; exact hP (List.cons_prefix_cons.mpr ⟨rfl, hpre⟩)
         · have hI : implicitIO (Entry.mk d c' (i.map (·.updateAt q g)) o) false = implicitIO (Entry.mk d c' i o) false := by
             simp [implicitIO]
@@ -405,17 +419,21 @@ theorem dataAt_update_off {e x : Entry} {np : NPath} {q : Path} (h : Tracks e np
       cases P with
       | nil => rfl
       | cons k' P' =>
-        rw [dataAt_cons, dataAt_cons]
+        rw [fullAt_cons, fullAt_cons]
         simp only [mk_out, mk_d] at hc hr
         by_cases hk : k' = "output"
         · subst hk
           rw [kid_output (by simpa using hr), kid_output (by simpa using hr)]
           simp only [mk_out, List.head?_map, hc, Option.map_some, Option.getD_some, Option.bind_some]
-          apply ih hd
+          apply ih
           intro hpre; exact hP (List.cons_prefix_cons.mpr ⟨rfl, hpre⟩)
         · have hI : implicitIO (Entry.mk d c' i (o.map (·.updateAt q g))) true = implicitIO (Entry.mk d c' i o) true := by
             simp [implicitIO]
           simp [kid, hr, hk, hI]
+
+theorem dataAt_update_off {e x : Entry} {np : NPath} {q : Path} (h : Tracks e np q x) {g : Entry → Entry}
+    (hg : NamePres g) (P : NPath) (hP : ¬ np <+: P) : dataAt (e.updateAt q g) P = dataAt e P := by
+  rw [dataAt_eq_fullAt, dataAt_eq_fullAt, fullAt_update_off h hg P hP]
 
 /-- An update that cannot be seen below the node cannot be seen at all. -/
 theorem dataAt_update_invisible {e x : Entry} {np : NPath} {q : Path} (h : Tracks e np q x) {g : Entry → Entry}
@@ -426,11 +444,7 @@ theorem dataAt_update_invisible {e x : Entry} {np : NPath} {q : Path} (h : Track
     simp only [dataAt]
     rw [walk_update_below h hg, walk_append, h.walk]
     exact hinv r
-  · have hd : SameData (g x) x := by
-      have := hinv []
-      simp only [dataAt_nil, Option.some.injEq] at this
-      exact this
-    exact dataAt_update_off h hg hd P hP
+  · exact dataAt_update_off h hg P hP
 
 /-! ### errors recorded in a tree -/
 
@@ -443,7 +457,7 @@ theorem mem_allErrors {er : Err} (e : Entry) :
     er ∈ e.allErrors ↔ (∃ c ∈ e.dir, er ∈ c.allErrors) ∨ (∃ c ∈ e.inp, er ∈ c.allErrors) ∨
       (∃ c ∈ e.out, er ∈ c.allErrors) ∨ er ∈ e.d.errors := by
   cases e with
-  | mk d c i o => simp [Entry.allErrors, mem_allErrorsL, or_assoc]
+  | mk d c i o => simp [Entry.allErrors, mem_allErrorsL]
 
 theorem own_errors_sub {er : Err} (e : Entry) (h : er ∈ e.d.errors) : er ∈ e.allErrors :=
   (mem_allErrors e).mpr (Or.inr (Or.inr (Or.inr h)))
@@ -521,5 +535,118 @@ theorem addErr_errMono (x : Err) : ErrMono (fun e => e.addErr x) := by
   · exact Or.inr (Or.inl h)
   · exact Or.inr (Or.inr (Or.inl h))
   · exact Or.inr (Or.inr (Or.inr (by simp [h])))
+
+/-! ### `merge` as seen by `walk` -/
+
+theorem importErrors_sameData (e c : Entry) : SameData (e.importErrors c) e := by
+  simp [SameData, Entry.importErrors, Entry.addErrs, nodeData]
+@[simp] theorem importErrors_dir (e c : Entry) : (e.importErrors c).dir = e.dir := by
+  simp [Entry.importErrors, Entry.addErrs]
+@[simp] theorem importErrors_inp (e c : Entry) : (e.importErrors c).inp = e.inp := by
+  simp [Entry.importErrors, Entry.addErrs]
+@[simp] theorem importErrors_out (e c : Entry) : (e.importErrors c).out = e.out := by
+  simp [Entry.importErrors, Entry.addErrs]
+theorem importErrors_child? (e c : Entry) (k : String) : (e.importErrors c).child? k = e.child? k := by
+  simp [Entry.child?]
+
+theorem merge_sameData (e : Entry) (ns : Option String) (oe : Entry) : SameData (e.merge ns oe) e := by
+  rw [merge_eq]; exact (fold_mstep_sameData _ _ _ _).trans (importErrors_sameData e oe)
+
+theorem merge_inp (e : Entry) (ns : Option String) (oe : Entry) : (e.merge ns oe).inp = e.inp := by
+  rw [merge_eq, fold_mstep_inp, importErrors_inp]
+
+theorem merge_out (e : Entry) (ns : Option String) (oe : Entry) : (e.merge ns oe).out = e.out := by
+  rw [merge_eq, fold_mstep_out, importErrors_out]
+
+theorem merge_namePres (ns : Option String) (oe : Entry) : NamePres fun te => te.merge ns oe :=
+  fun y => (merge_sameData y ns oe).name
+
+theorem merge_child_mono (e : Entry) (ns : Option String) (oe : Entry) {k : String} {c : Entry}
+    (h : e.child? k = some c) : (e.merge ns oe).child? k = some c := by
+  rw [merge_eq]; exact fold_mstep_child_mono _ _ _ _ (by rw [importErrors_child?]; exact h)
+
+theorem freeIn_importErrors (e oe : Entry) (L : List Entry) : FreeIn (e.importErrors oe) L ↔ FreeIn e L := by
+  simp [FreeIn, importErrors_child?]
+
+theorem merge_free_dir (e : Entry) (ns : Option String) (oe : Entry) (hf : FreeIn e oe.dir) :
+    (e.merge ns oe).dir = e.dir ++ oe.dir.map (stampO ns) := by
+  rw [merge_eq, (fold_mstep_free ns oe oe.dir _ ((freeIn_importErrors e oe _).mpr hf)).1, importErrors_dir]
+
+theorem merge_collision_err (e : Entry) (ns : Option String) (oe : Entry) (hf : ¬ FreeIn e oe.dir) :
+    Err.at_ oe.d.node "duplicate-node" ∈ (e.merge ns oe).d.errors := by
+  rw [merge_eq]; exact fold_mstep_collision ns oe oe.dir _ (fun h => hf ((freeIn_importErrors e oe _).mp h))
+
+theorem mstep_errMono (ns : Option String) (oe v : Entry) : ErrMono fun e => mstep ns oe e v := by
+  intro y er h
+  simp only [mstep]
+  split
+  · exact addErr_errMono _ y er h
+  · rw [mem_allErrors] at h ⊢
+    simp only [withDir_dir, withDir_inp, withDir_out, withDir_d]
+    rcases h with ⟨c, hc, hce⟩ | h
+    · exact Or.inl ⟨c, List.mem_append_left _ hc, hce⟩
+    · exact Or.inr h
+
+theorem merge_errMono (ns : Option String) (oe : Entry) : ErrMono fun te => te.merge ns oe := by
+  intro y er h
+  simp only [merge_eq]
+  have h0 : er ∈ (y.importErrors oe).allErrors := by
+    rw [mem_allErrors] at h ⊢
+    simp only [importErrors_dir, importErrors_inp, importErrors_out]
+    rcases h with h | h | h | h
+    · exact Or.inl h
+    · exact Or.inr (Or.inl h)
+    · exact Or.inr (Or.inr (Or.inl h))
+    · exact Or.inr (Or.inr (Or.inr (by simp [Entry.importErrors, Entry.addErrs, h])))
+  generalize y.importErrors oe = z at h0
+  induction oe.dir generalizing z with
+  | nil => exact h0
+  | cons v L ih => exact ih _ (mstep_errMono ns oe v z er h0)
+
+/-- One step down from a merged node: whatever was there is still there. -/
+theorem kid_merge_mono (e : Entry) (ns : Option String) (oe : Entry) {k : String} {c : Entry}
+    (h : kid e k = some c) : kid (e.merge ns oe) k = some c := by
+  have hd := merge_sameData e ns oe
+  unfold kid at h ⊢
+  rw [hd.isRpc, merge_inp, merge_out, hd.implicitIO true, hd.implicitIO false]
+  by_cases hr : e.d.isRpc = true
+  · simpa [hr] using h
+  · simp only [hr, Bool.false_eq_true, if_false] at h ⊢
+    exact merge_child_mono e ns oe h
+
+theorem walk_merge_mono (e : Entry) (ns : Option String) (oe : Entry) (k : String) (r : NPath) {x : Entry}
+    (h : walk e (k :: r) = some x) : walk (e.merge ns oe) (k :: r) = some x := by
+  simp only [walk] at h ⊢
+  cases hk : kid e k with
+  | none => simp [hk] at h
+  | some c => rw [kid_merge_mono e ns oe hk]; simpa [hk] using h
+
+theorem find?_stamp (ns : String) (L : List Entry) (k : String) :
+    (L.map (stampO (some ns))).find? (·.name == k) = (L.find? (·.name == k)).map (stamp ns) := by
+  have := find?_map_name (g := stampO (some ns)) (fun x => stampO_name _ x) L k
+  rw [this]; rfl
+
+/-- One step down from a node that received a collision-free merge: the old child of that name
+if there is one, else the stamped copy of the body node of that name. -/
+theorem kid_merge_free (e : Entry) (ns : String) (oe : Entry) (hr : e.d.isRpc = false) (hf : FreeIn e oe.dir)
+    (k : String) :
+    kid (e.merge (some ns) oe) k = (e.child? k).or ((oe.dir.find? (·.name == k)).map (stamp ns)) := by
+  have hd := merge_sameData e (some ns) oe
+  rw [kid_nonrpc (by rw [hd.isRpc]; exact hr)]
+  simp only [Entry.child?, merge_free_dir e (some ns) oe hf, List.find?_append, find?_stamp]
+
+/-- In a list with distinct names, looking a member up by its name finds it. -/
+theorem find?_of_nodup (L : List Entry) (hn : (L.map (·.name)).Nodup) {c : Entry} (hc : c ∈ L) :
+    L.find? (·.name == c.name) = some c := by
+  induction L with
+  | nil => cases hc
+  | cons x xs ih =>
+    simp only [List.map_cons, List.nodup_cons] at hn
+    rw [List.find?_cons]
+    rcases List.mem_cons.mp hc with rfl | hc
+    · simp
+    · have : ¬ x.name = c.name := fun h => hn.1 (h ▸ List.mem_map.mpr ⟨c, hc, rfl⟩)
+      have hb : (x.name == c.name) = false := by simpa using this
+      rw [hb]; exact ih hn.2 hc
 
 end Goyang.Lemmas.AugmentTree
